@@ -16,7 +16,8 @@ bits.golombdecsweep N L                  every bit string of length L decoded ->
 ```
 ops: `w b`, `ws bitstring`, `r`, `len`, `empty`, `raw`, `export` (into_compressed, then continue
 with from_compressed of the result), `getc` (guard), `iter`, `drain` (the `Iterator` impl run to
-the end), `todec` (into_decoder), `eg N v`, `egs N form vs`, `dg N`, `dgs N form n`,
+the end), `todec` (into_decoder), `intoiter` / `intoiterk k` (stack: `into_iterator()`, all /
+the first k items), `oiter` / `oiterk k` (queue: `into_overshooting_iter()`), `eg N v`, `egs N form vs`, `dg N`, `dgs N form n`,
 `nat bitstring` / `via bitstring` (a codebook that natively / only via the default method emits
 the given bits), `mexh`, `clone`.
 -/
@@ -166,7 +167,17 @@ def doOp (W : Nat) (st : St) (seg : List String) : Option (St × String × Bool)
         match Stack.iter W c with
         | .ok bs => some (.stack c, showBits bs, false)
         | .error f => some (.stack c, faultStr f, true)
-    | ["todec"] => some (.stackDec c, "ok", false)
+    | ["todec"] => some (.stackDec (Stack.intoDecoder c), "ok", false)
+    | ["intoiter"] =>
+        -- `into_iterator()` consumes the coder; the history continues with a fresh one
+        match Stack.intoIterator W c with
+        | .ok bs => some (.stack Bits.empty, showBits bs, false)
+        | .error f => some (.stack c, faultStr f, true)
+    | ["intoiterk", k] => do
+        let k ← parseHex k
+        match Stack.intoIterator W c with
+        | .ok bs => some (.stack Bits.empty, showBits (bs.take k), false)
+        | .error f => some (.stack c, faultStr f, true)
     | _ =>
       match stackReadOp W c seg with
       | some (c', o, d) => some (.stack c', o, d)
@@ -187,6 +198,16 @@ def doOp (W : Nat) (st : St) (seg : List String) : Option (St × String × Bool)
         let (ws, c') := Queue.getCompressed c
         some (.qenc c', showList ws.reverse, false)
     | ["todec"] => some (.qdec (Queue.intoDecoder c), "ok", false)
+    | ["oiter"] =>
+        -- `into_overshooting_iter()` consumes the encoder; the history continues with a fresh one
+        match Queue.intoOvershootingIter W c with
+        | .ok (bs, _) => some (.qenc Bits.empty, showBits bs, false)
+        | .error f => some (.qenc c, faultStr f, true)
+    | ["oiterk", k] => do
+        let k ← parseHex k
+        match Queue.intoOvershootingIter W c with
+        | .ok (bs, _) => some (.qenc Bits.empty, showBits (bs.take k), false)
+        | .error f => some (.qenc c, faultStr f, true)
     | _ =>
       match writeOp W false c seg with
       | some (c', o, d) => some (.qenc c', o, d)
